@@ -74,6 +74,9 @@ pub struct Program {
     /// snapshot thread) while the clients execute
     #[serde(default)]
     pub background_snapshot: Option<bool>,
+    /// wire scenario: the front end the client talks to ("tcp", "ws", "http")
+    #[serde(default)]
+    pub transport: String,
 }
 
 const KEYS: [&str; 2] = ["a", "b"];
@@ -106,7 +109,7 @@ fn gen_sequential(rng: &mut Rng) -> Program {
         };
         ops.push(op);
     }
-    Program { setup: vec![], clients: vec![ops], background_snapshot: None }
+    Program { setup: vec![], clients: vec![ops], background_snapshot: None, transport: String::new() }
 }
 
 fn gen_concurrent(rng: &mut Rng) -> Program {
@@ -168,7 +171,7 @@ fn gen_concurrent(rng: &mut Rng) -> Program {
         }
         clients.push(ops);
     }
-    Program { setup, clients, background_snapshot }
+    Program { setup, clients, background_snapshot, transport: String::new() }
 }
 
 #[derive(Clone, Debug)]
@@ -243,7 +246,12 @@ fn execute(prog: Program, sequential: bool) -> Outcome {
     out.setup_ok = true;
 
     if sequential {
-        out.seq_violations = run_sequential(&w, &mut admin, &prog.clients[0]);
+        out.seq_violations = if prog.transport.is_empty() {
+            run_sequential(&w, &mut admin, &prog.clients[0])
+        } else {
+            wait_cond(1_000, 1, || nundb_verif_rt::kernel::with(|k| k.net.lookup(&w.nodes[0].ws).is_some() && k.net.lookup(&w.nodes[0].http).is_some() && k.net.lookup(&w.nodes[0].tcp).is_some()));
+            run_wire(&w, &mut admin, &prog.transport, &prog.clients[0])
+        };
         return out;
     }
 
@@ -398,6 +406,124 @@ fn run_sequential(w: &World, s: &mut Session, ops: &[Op]) -> Vec<Violation> {
                     }
                 }
             }
+        }
+    }
+    viols
+}
+
+/// wire scenario: one client over a real front end; what the reply says (acknowledged / refused) must be what
+/// happened to the key (read back through an administrator's direct session)
+fn run_wire(w: &World, admin: &mut Session, transport: &str, ops: &[Op]) -> Vec<Violation> {
+    let mut viols = Vec::new();
+    let mut tcp: Option<WireClient> = None;
+    let mut wsc: Option<WsClient> = None;
+    match transport {
+        "tcp" => {
+            let mut c = match WireClient::connect(&w.nodes[0].tcp) {
+                Some(c) => c,
+                None => return viols,
+            };
+            if !c.greeting(2_000) || c.request("use-db d tok", 2_000).is_none() {
+                return viols;
+            }
+            tcp = Some(c);
+        }
+        "ws" => {
+            let mut c = match WsClient::connect(&w.nodes[0].ws) {
+                Some(c) => c,
+                None => return viols,
+            };
+            if c.request("use-db d tok", 2_000).is_none() {
+                return viols;
+            }
+            wsc = Some(c);
+        }
+        _ => {}
+    }
+    let present = |s: &mut Session, k: &str| -> bool { s.exec("keys").msgs.iter().any(|m| m.trim_end().trim_start_matches("keys ").split(',').any(|x| x == k)) };
+    for op in ops {
+        if let Op::Snap { .. } = op {
+            admin.exec(&op.line(None));
+            if !w.declutter_tick(0, 10_000) {
+                viols.push(Violation::new("snapshot-stuck", "snapshot", "background snapshot did not finish"));
+                break;
+            }
+            continue;
+        }
+        let key = op.key().to_string();
+        let before_present = present(admin, &key);
+        let before = parse_value_version(&admin.exec(&format!("get-safe {}", key)).msgs);
+        let (bver, bval) = before.clone().unwrap_or((0, String::new()));
+        let line = op.line(Some(bver));
+        let replies: Option<Vec<String>> = match transport {
+            "tcp" => tcp.as_mut().and_then(|c| c.request(&line, 3_000)),
+            "ws" => wsc.as_mut().and_then(|c| c.request(&line, 3_000)),
+            _ => http_request(&w.nodes[0].http, &format!("use-db d tok;{}", line), 3_000).map(|r| match r.split(';').last() {
+                Some(e) => vec![e.to_string()],
+                None => vec![],
+            }),
+        };
+        let replies = match replies {
+            Some(r) => r,
+            None => {
+                viols.push(Violation::new("no-reply", format!("{}:{}", transport, op.kind()), format!("`{}` over {} got no reply", line, transport)));
+                break;
+            }
+        };
+        let after_present = present(admin, &key);
+        let after = parse_value_version(&admin.exec(&format!("get-safe {}", key)).msgs);
+        let (aver, aval) = after.clone().unwrap_or((0, String::new()));
+        // the reply's class: an error text, or an acknowledgement (`ok` on tcp / ws, `empty` in an HTTP entry)
+        let said_error = replies.iter().any(|m| {
+            let m = m.trim();
+            m.starts_with("error") || m.contains("Invalid version") || m.contains("not numeric") || m.contains("conflitct")
+        });
+        let said_ok = replies.iter().any(|m| {
+            let m = m.trim();
+            m == "ok" || m == "empty"
+        });
+        match op {
+            Op::Set { val, .. } | Op::SetSafe { val, .. } => {
+                let applied = after_present && &aval == val && (aver != bver || bval != *val || !before_present);
+                let unchanged = (aver, &aval, after_present) == (bver, &bval, before_present);
+                if said_ok && !said_error && !applied {
+                    viols.push(Violation::new(
+                        "acknowledged-not-applied",
+                        format!("{}:{}", transport, op.kind()),
+                        format!("`{}` over {} with the key at {:?} was answered {:?} but the key holds {:?}", line, transport, before, replies, after),
+                    ));
+                }
+                if said_error && !unchanged {
+                    viols.push(Violation::new(
+                        "refused-changed",
+                        format!("{}:{}", transport, op.kind()),
+                        format!("`{}` over {} was answered {:?} but the key went {:?} -> {:?}", line, transport, replies, before, after),
+                    ));
+                }
+                if !said_ok && !said_error {
+                    viols.push(Violation::new("no-reply", format!("{}:{}:unreadable", transport, op.kind()), format!("`{}` over {} answered {:?}", line, transport, replies)));
+                }
+            }
+            Op::Inc { by, .. } => {
+                let numeric = if before_present { bval.parse::<i32>().ok() } else { Some(0) };
+                if let Some(n) = numeric {
+                    if said_ok && !said_error && aval != (n + by).to_string() {
+                        viols.push(Violation::new(
+                            "acknowledged-not-applied",
+                            format!("{}:increment", transport),
+                            format!("`{}` over {} on {:?} was answered {:?} but the key holds {:?}", line, transport, before, replies, after),
+                        ));
+                    }
+                } else if !said_error || (aver, &aval) != (bver, &bval) {
+                    viols.push(Violation::new("increment-nonnumeric", format!("{}:increment", transport), format!("`{}` over {} on {:?} => {:?} / {:?}", line, transport, before, replies, after)));
+                }
+            }
+            Op::Remove { .. } => {
+                if said_ok && !said_error && after_present {
+                    viols.push(Violation::new("remove-ineffective", format!("{}:remove", transport), format!("`{}` over {} answered {:?} and left the key listed", line, transport, replies)));
+                }
+            }
+            Op::GetSafe { .. } | Op::Snap { .. } => {}
         }
     }
     viols
@@ -657,13 +783,13 @@ impl Property for C02 {
         "C02"
     }
     fn scenarios(&self) -> Vec<(&'static str, u32)> {
-        vec![("concurrent", 3), ("sequential", 1)]
+        vec![("concurrent", 6), ("sequential", 2), ("wire", 1)]
     }
     fn budget(&self) -> (u64, u64) {
         (300_000, 6_000_000)
     }
     fn rule(&self) -> &'static str {
-        "concurrent: 2-3 direct sessions x 1-3 ops of {set,set-safe v,increment,get-safe,remove} on 1-2 keys of a strategy-none database on a node booted by the real start_db, every lock/atomic a preemption point; in half of the cases the initial keys were persisted by a completed snapshot (and one may have been removed again: tombstone), in a quarter a `snapshot <reclaim>` is released to run on the node's snapshot thread while the clients execute; sequential: 2-12 ops with version arguments {-1,cur-2,cur-1,cur,cur+1,large}. A case is non-trivial when at least two clients' operations on one key overlapped in time (concurrent) or a versioned write hit an existing key (sequential); distinct = distinct (program, task-switch sequence) hash."
+        "concurrent: 2-3 direct sessions x 1-3 ops of {set,set-safe v,increment,get-safe,remove} on 1-2 keys of a strategy-none database on a node booted by the real start_db, every lock/atomic a preemption point; in half of the cases the initial keys were persisted by a completed snapshot (and one may have been removed again: tombstone), in a quarter a `snapshot <reclaim>` is released to run on the node's snapshot thread while the clients execute; sequential: 2-12 ops with version arguments {-1,cur-2,cur-1,cur,cur+1,large}; wire: the sequential programs sent by one client over the real TCP, WebSocket or HTTP front end -- a write the reply acknowledges (`ok` / an `empty` HTTP entry) must be stored, a write answered with an error must have changed nothing (state read back through an administrator's direct session). A case is non-trivial when at least two clients' operations on one key overlapped in time (concurrent) or a versioned write hit an existing key (sequential); distinct = distinct (program, task-switch sequence) hash."
     }
     fn assumptions(&self) -> Vec<String> {
         vec![
@@ -677,11 +803,15 @@ impl Property for C02 {
     }
     fn run_one(&self, scenario: &str, ctx: &RunCtx) -> RunReport {
         let mut rng = Rng::new(ctx.seed);
-        let sequential = scenario == "sequential";
+        let sequential = scenario == "sequential" || scenario == "wire";
         let prog: Program = match &ctx.program {
             Some(p) => serde_json::from_value(p.clone()).expect("program"),
             None => {
-                if sequential {
+                if scenario == "wire" {
+                    let mut p = gen_sequential(&mut rng);
+                    p.transport = ["tcp", "ws", "http"][rng.below(3) as usize].to_string();
+                    p
+                } else if sequential {
                     gen_sequential(&mut rng)
                 } else {
                     gen_concurrent(&mut rng)
